@@ -2,6 +2,7 @@ import NeoFS.Driver.EC
 import NeoFS.Driver.Int256
 import NeoFS.Driver.Range
 import NeoFS.Driver.Grace
+import NeoFS.Driver.Arith
 open NeoFS NeoFS.Driver
 
 /-- State of all stateful models; pure models need none. -/
@@ -16,6 +17,7 @@ def stepLine (s : DState) (line : String) : DState × String :=
   | "int256" => (s, int256Step o)
   | "range" => (s, rangeStep o)
   | "grace" => (s, graceStep o)
+  | "arith" => (s, arithStep o)
   | _ => (s, "=> bad-op")
 
 partial def loop (h : IO.FS.Stream) (out : IO.FS.Stream) (s : DState) : IO Unit := do
